@@ -122,6 +122,20 @@ def c19(tier, seed):
                             rep.violation("chain_events", "chain_events/%s" % cls, "chain %s %d-%d: discontinuation events do not match one per "
                                           "contract at its expiry (simulation clock at %s)" % (cls, y0, y1, clock), case)
                             break
+                    # the same chain built from an explicit list of contracts given in another order (reversed, or interleaved
+                    # across years): the chain lists the same contracts in expiry order whatever order they were given in
+                    if month == 0 and len(cs) >= 2:
+                        for perm in (list(reversed(cs)), cs[1::2] + cs[0::2]):
+                            o2, ch2 = impl.classify(lambda: FutureChain(contracts=list(perm)))
+                            nch += 1
+                            if o2 != "ok":
+                                rep.violation("chain_construct", "chain_construct/%s" % cls, "FutureChain(contracts=[...]) raised %r" % (ch2,), case)
+                                break
+                            if [c.symbol for c in ch2.contracts] != syms or \
+                                    list(getattr(ch2, "_last_trading_dates", [c.last_trading_date for c in cs])) != [c.last_trading_date for c in cs]:
+                                rep.violation("chain_order", "chain_order/%s" % cls, "chain built from the contracts %s given out of order lists them as %s" % (
+                                    [c.symbol for c in perm][:6], [c.symbol for c in ch2.contracts][:6]), case)
+                                break
     rep.traces += nch
     rep.evaluations += nch
     rep.count("chains_compared", nch)
